@@ -2181,6 +2181,7 @@ class QuaternionArray(np.ndarray):
 
         # Assert valid input
         _assert_iterables(q, 'Quaternion Array')
+        _assert_numerical_iterable(q, 'Quaternion Array')
         q = np.array(q, dtype=float, order='C')     # Used as the buffer of the new object below
         if q.ndim != 2 or q.shape[-1] not in [3, 4]:
             raise ValueError(f"Expected array to have shape (N, 4) or (N, 3), got {q.shape}.")
